@@ -43,6 +43,8 @@ def random_rule_params(rng, maxn=14):
              interval=rng.choice([1, 1, 2, 3, 7]), count=rng.choice([0, 1, 2, 3, 5, 9, 10, 11, 12, maxn]))
     if rng.random() < 0.25 and freq in (R.DAILY, R.WEEKLY, R.HOURLY):      # sub-hourly + BYDAY steps through every second of the skipped days
         p["byweekday"] = tuple(sorted(rng.sample(range(7), rng.randint(1, 3))))
+        if p["interval"] == 7:
+            p["interval"] = 2          # DAILY every 7 days + a BYDAY that excludes the start's weekday runs empty to year 9999
     return p
 
 
